@@ -2,7 +2,9 @@ use super::super::{LastState, LightClientProtocol, Status, StatusCode};
 use ckb_constant::sync::MAX_TIP_AGE;
 use ckb_network::{CKBProtocolContext, PeerIndex};
 use ckb_systemtime::unix_time_as_millis;
-use ckb_types::{packed, prelude::*, utilities::merkle_mountain_range::VerifiableHeader};
+use ckb_types::{
+    packed, prelude::*, utilities::merkle_mountain_range::VerifiableHeader, U256,
+};
 use log::{debug, trace};
 
 pub(crate) struct SendLastStateProcess<'a> {
@@ -60,7 +62,18 @@ impl<'a> SendLastStateProcess<'a> {
 
                 if prev_last_state.total_difficulty() < last_state.total_difficulty() {
                     if let Some(prove_state) = peer_state.get_prove_state() {
-                        if prove_state.is_parent_of(&last_state) {
+                        // The chain root committed by the child block should be the chain
+                        // root of the proved parent block: its total difficulty and its end
+                        // block number should be the same as the proved parent block.
+                        let is_chain_root_matched = {
+                            let parent_chain_root = last_state.as_ref().parent_chain_root();
+                            let proved_header = prove_state.get_last_header();
+                            Unpack::<U256>::unpack(&parent_chain_root.total_difficulty())
+                                == proved_header.total_difficulty()
+                                && Unpack::<u64>::unpack(&parent_chain_root.end_number())
+                                    == proved_header.header().number()
+                        };
+                        if is_chain_root_matched && prove_state.is_parent_of(&last_state) {
                             trace!("peer {}: new last state could be trusted", self.peer_index);
                             let last_n_blocks = self.protocol.last_n_blocks() as usize;
                             let child_prove_state =
